@@ -48,6 +48,7 @@ def run(ctx):
                            lambda n: n.get("k") == "mcall" and cname(n) == "ktio::mmap::MMWriter::write_at",
                            "row write (every row of the mapping is written: no byte left NUL)")
         stats_every_record(ctx, "C14.O")
+        rule_spawn_count(ctx, "C14.T", fm, "vectorise_mmap")
     mmap_open_rule(ctx)
     # row offsets are row_len * n: the reader numbers records 0, 1, 2 .. in both formats
     c05.ordinal_rule(dep(ctx, "C14", "C05"), "C05.N")
